@@ -225,16 +225,25 @@ class XShell:
             ]
         )
 
-    def to_gbasis(self):
+    def to_gbasis(self, icenter=None):
+        """icenter: the atom index the shell carries (what gbasis.parsers.make_contractions and the wrappers set);
+        None = the five-argument constructor call (no atom index)."""
         from gbasis.contractions import GeneralizedContractionShell
 
-        return GeneralizedContractionShell(
+        args = (
             self.l,
             np.array([float(c) for c in self.coord]),
             np.array([[float(c) for c in row] for row in self.coeffs]),
             np.array([float(e) for e in self.exps]),
             "spherical" if self.sph else "cartesian",
         )
+        if icenter is None:
+            return GeneralizedContractionShell(*args)
+        return GeneralizedContractionShell(*args, icenter=int(icenter))
+
+    def moved(self, coord):
+        """the same shell (exponents, coefficients, type) on another centre"""
+        return XShell(self.l, coord, self.exps, self.coeffs, self.sph, self.comps, self.labels)
 
     def to_json(self):
         return {
@@ -546,11 +555,84 @@ def _worker_run(case):
         return (case, None, traceback.format_exc()[-2000:])
 
 
-def run_cases(rep, cases, evalfn, shrinkfn=None, nproc=None, known=None):
+def _iso_child(conn, evalfn, case, need_model):
+    import traceback
+
+    model = None
+    try:
+        model = ModelProc() if need_model else None
+        msg = (evalfn(model, case), None)
+    except Exception:  # noqa: BLE001
+        msg = (None, traceback.format_exc()[-2000:])
+    try:
+        conn.send(msg)
+        conn.close()
+    finally:
+        if model is not None:
+            model.close()
+        os._exit(0)
+
+
+def eval_isolated(evalfn, case, need_model=True, timeout=3600):
+    """evalfn(model, case) in a FRESH fork of the calling process with its own model co-process.
+
+    Used for the checks with history streams (sequences of calls inside one case): state the implementation keeps
+    between calls (module-level caches, aliased arrays) must not leak from one shrink candidate / replayed case into
+    the next, otherwise a shrunk case could fail only because of what the shrinker evaluated before it.  The caller
+    must not have evaluated cases itself (run_cases(isolate=True) never does: workers and these children do)."""
+    import multiprocessing as mp
+
+    ctx = mp.get_context("fork")
+    rd, wr = ctx.Pipe(duplex=False)
+    p = ctx.Process(target=_iso_child, args=(wr, evalfn, case, need_model))
+    p.start()
+    wr.close()
+    try:
+        if not rd.poll(timeout):
+            raise RuntimeError("isolated evaluation timed out")
+        out, err = rd.recv()
+    except EOFError:
+        out, err = None, "isolated evaluation died without an answer"
+    finally:
+        p.join(5)
+        if p.is_alive():
+            p.kill()
+    if err:
+        raise RuntimeError(err)
+    return out
+
+
+def shrink_isolated(case, detail, evalfn, shrinkfn, known=None, need_model=True, budget=100):
+    """Shrinking for history checks: the reported case is first re-evaluated alone in a fresh process (what
+    `--replay` will do); if the failure is not reproduced there it depended on earlier calls of the worker that
+    found it and is reported unshrunk with that remark; otherwise every candidate is evaluated in its own fresh
+    process, so a shrunk sequence fails on its own."""
+    class _Iso:            # stands for the model argument of lib.shrink; evalfn never sees it
+        pass
+
+    def ev(_m, cand):
+        return eval_isolated(evalfn, cand, need_model=need_model)
+
+    try:
+        out = ev(None, case)
+    except Exception:  # noqa: BLE001
+        return case, detail
+    d = out.get("detail")
+    if d is None or (known and known(case, d)):
+        detail = dict(detail)
+        detail["fresh_process"] = ("not reproduced when this case is evaluated alone in a fresh process: the failure "
+                                   "depends on calls made earlier by the worker process that found it")
+        return case, detail
+    return shrink(_Iso(), case, d, ev, shrinkfn, known, budget=budget)
+
+
+def run_cases(rep, cases, evalfn, shrinkfn=None, nproc=None, known=None, isolate=False):
     """evalfn(model, case) -> dict(detail=None|dict, nontrivial=bool, tag=str).
 
     A harness exception on a case is reported as a broken correspondence (see below), never as a value verdict.
     known(case, detail) -> text or None: a listed known finding (reported, not a violation).
+    isolate: (checks with history streams) this process never evaluates a case itself; a short case list (replay) is
+    evaluated one case per fresh process and shrinking uses shrink_isolated.
     """
     import multiprocessing as mp
 
@@ -558,7 +640,13 @@ def run_cases(rep, cases, evalfn, shrinkfn=None, nproc=None, known=None):
         return
     nproc = nproc or min(16, max(1, len(cases)))
     results = []
-    if nproc == 1 or len(cases) < 4:
+    if isolate and (nproc == 1 or len(cases) < 4):
+        for c in cases:
+            try:
+                results.append((c, eval_isolated(evalfn, c), None))
+            except RuntimeError as exc:
+                results.append((c, None, str(exc)))
+    elif nproc == 1 or len(cases) < 4:
         model = ModelProc()
         for c in cases:
             results.append((c, evalfn(model, c), None))
@@ -603,9 +691,12 @@ def run_cases(rep, cases, evalfn, shrinkfn=None, nproc=None, known=None):
                     rep.known_finding(k)
                     continue
             if shrinkfn is not None and len(rep.violations) < 3:
-                if shr_model is None:
-                    shr_model = ModelProc()
-                case, detail = shrink(shr_model, case, detail, evalfn, shrinkfn, known)
+                if isolate:
+                    case, detail = shrink_isolated(case, detail, evalfn, shrinkfn, known)
+                else:
+                    if shr_model is None:
+                        shr_model = ModelProc()
+                    case, detail = shrink(shr_model, case, detail, evalfn, shrinkfn, known)
             if len(rep.violations) < 20:
                 rep.violation(case, detail)
     if shr_model is not None:
